@@ -2,13 +2,15 @@
 // recording lambdas and the result), written from the property text and independent of the Coq model.
 //
 // For the root graph (all-predecessor mode or Workflow):
-//   dag-node-twice   no node path occurs twice in the log of an instance that runs at most once
-//   dag-order        an executed node runs after every executed control / data predecessor
-//   dag-untriggered  an executed node has a control predecessor that ran and routed control to it (direct
-//                    control edge, or selected by one of its branches)
-//   dag-input        the input of an executed node is the merge of the outputs of exactly those data
-//                    predecessors that ran and routed data to it (zero value when there are none)
-//   dag-result       the result of a finished run is that merge for END
+//
+//	dag-node-twice   no node path occurs twice in the log of an instance that runs at most once
+//	dag-order        an executed node runs after every executed control / data predecessor
+//	dag-untriggered  an executed node has a control predecessor that ran and routed control to it (direct
+//	                 control edge, or selected by one of its branches)
+//	dag-input        the input of an executed node is the merge of the outputs of exactly those data
+//	                 predecessors that ran and routed data to it (zero value when there are none)
+//	dag-result       the result of a finished run is that merge for END
+//
 // The last three need the outputs of the predecessors, which are known for START (the run's input) and for
 // lambdas (their logged input determines their output); a node with a pass-through or sub-graph predecessor
 // is not judged (status unknown).
